@@ -118,6 +118,17 @@ func min(a, b int) int {
 // CallProgram generates a program about argument/result adjustment (C02).
 func (g *Gen) CallProgram() *Chunk {
 	b := &Block{}
+	if g.R.Intn(5) == 0 {
+		// more than 256 (sometimes more than 512) constants in this function: names then travel through registers
+		t := &ETable{}
+		for i, n := 0, []int{270, 530}[g.R.Intn(2)]; i < n; i++ {
+			t.Items = append(t.Items, TItem{Kind: TPos, Val: Num(float64(5000 + i))})
+		}
+		b.Stmts = append(b.Stmts, Local1(g.fresh("big"), t))
+		// method call whose receiver is an expression, not a local
+		b.Stmts = append(b.Stmts, CallSN("emit", Str("selfexpr"), &EMethod{Obj: Str("len"), Name: "upper"}, &EMethod{Obj: &EParen{X: Str("abc")}, Name: "rep", Args: []Expr{Num(2)}}))
+		g.cover("call:many-constants")
+	}
 	var sigs []fnSig
 	nf := 2 + g.R.Intn(4)
 	for i := 0; i < nf; i++ {
@@ -238,10 +249,44 @@ func (g *Gen) CallProgram() *Chunk {
 			b.Stmts = append(b.Stmts, CallSN("emit", Str("operand"), Bin("==", call, g.simpleVal())))
 		}
 	}
+	// tiny callees (no temporaries at all) reached through tail calls from fixed-arity and vararg callers
+	{
+		t1, t2, t3, t4 := g.fresh("tiny"), g.fresh("tiny"), g.fresh("tiny"), g.fresh("tiny")
+		b.Stmts = append(b.Stmts,
+			&SLocalFunc{Name: t1, F: &Func{Params: []string{"a", "b"}, Body: Blk(Return(N("b")))}},
+			&SLocalFunc{Name: t2, F: &Func{Params: []string{"a", "b"}, Vararg: true, Body: Blk(Return(N("arg")))}},
+			&SLocalFunc{Name: t3, F: &Func{Params: []string{"a", "b"}, Body: Blk(&SIf{Conds: []Expr{N("b")}, Blocks: []*Block{Blk(Return(N("a")))}})}},
+			&SLocalFunc{Name: t4, F: &Func{Params: []string{"a", "b", "c"}, Body: Blk(&SIf{Conds: []Expr{Bin("<", N("a"), N("b"))}, Blocks: []*Block{Blk(Return(N("c")))}}, Return(N("a")))}},
+		)
+		for _, tn := range []string{t1, t2, t3, t4} {
+			via, viav := g.fresh("via"), g.fresh("viav")
+			b.Stmts = append(b.Stmts,
+				&SLocalFunc{Name: via, F: &Func{Params: []string{"x", "y", "z"}, Body: Blk(Return(Call(N(tn), N("x"), N("y"), N("z"))))}},
+				&SLocalFunc{Name: viav, F: &Func{Vararg: true, Body: Blk(Return(Call(N(tn), &EVararg{})))}})
+			for k, m := 0, 1+g.R.Intn(3); k < m; k++ {
+				args := []Expr{Num(float64(g.R.Intn(9))), Num(float64(g.R.Intn(9)))}
+				if g.R.Intn(2) == 0 {
+					args = append(args, g.simpleVal())
+				}
+				if g.R.Intn(3) == 0 {
+					args = append(args, g.simpleVal(), g.simpleVal())
+				}
+				caller := []string{via, viav}[g.R.Intn(2)]
+				if tn == t2 {
+					r := g.fresh("r")
+					b.Stmts = append(b.Stmts, Local1(r, Call(N(caller), args...)),
+						CallSN("emit", Str("tiny-arg"), CallN("type", N(r)), Bin("and", N(r), Dot(N(r), "n")), Bin("and", N(r), Idx(N(r), Num(1)))))
+				} else {
+					b.Stmts = append(b.Stmts, CallSN("emit", Str("tiny"), Call(N(caller), args...)))
+				}
+			}
+		}
+		g.cover("callee:tiny-through-tailcall")
+	}
 	// proper tail calls: deep self and mutual recursion
 	depth := []int{1000, 20000, 100000}[g.R.Intn(3)]
 	lp := g.fresh("loop")
-	switch g.R.Intn(3) {
+	switch g.R.Intn(5) {
 	case 0:
 		b.Stmts = append(b.Stmts,
 			&SLocalFunc{Name: lp, F: &Func{Params: []string{"n", "acc"}, Body: Blk(
@@ -260,6 +305,14 @@ func (g *Gen) CallProgram() *Chunk {
 				&SIf{Conds: []Expr{Bin("==", N("n"), Num(0))}, Blocks: []*Block{Blk(Return(&EFalse{}, &EVararg{}))}},
 				Return(Call(N(ev), Bin("-", N("n"), Num(1)), &EVararg{}))))),
 			CallSN("emit", Str("mutual"), Call(N(ev), Num(float64(depth+g.R.Intn(2))), Str("x"), Num(7))))
+	case 3:
+		// a long chain whose calling frames are vararg
+		b.Stmts = append(b.Stmts,
+			&SLocalFunc{Name: lp, F: &Func{Params: []string{"n"}, Vararg: true, Body: Blk(
+				&SIf{Conds: []Expr{Bin("==", N("n"), Num(0))}, Blocks: []*Block{Blk(Return(CallN("select", Str("#"), &EVararg{}), &EVararg{}))}},
+				Return(Call(N(lp), Bin("-", N("n"), Num(1)), &EVararg{})),
+			)}},
+			CallSN("emit", Str("tailvararg"), Call(N(lp), Num(float64(depth)), Num(1), Str("a"), &ENil{}, Num(4))))
 	default:
 		// tail call through a host function and through pcall at the end of the chain
 		b.Stmts = append(b.Stmts,
